@@ -403,3 +403,63 @@ func wildListing(r *vh.Run, i int) {
 		}
 	}
 }
+
+// bigReferrers: a tagged subject with so many artifacts that the referrers answer the registry generates for it is
+// larger than the (small, legal) manifest size limit - every pushed manifest is below the limit.  The answer is what
+// links the artifacts to their retained subject: after a collection with everything old, every artifact and its
+// content is still there.
+func bigReferrers(r *vh.Run, i int) {
+	kind := []vh.StoreKind{vh.Mem, vh.Dir, vh.MemDir}[i%3]
+	root := ""
+	if kind != vh.Mem {
+		root = r.TempDir("bigref")
+		defer vh.RemoveAll(root)
+	}
+	pol := vh.Policy{Untagged: i%2 == 0, Dangling: (i/2)%2 == 0, WithSubj: (i/4)%2 == 0, EmptyRepo: true, Grace: []time.Duration{-1, time.Hour}[(i/3)%2]}
+	c := vh.Conf(kind, root, pol)
+	c.API.Manifest.Limit = []int64{1500, 2048, 4096}[(i/6)%3]
+	srv := vh.New(c)
+	defer srv.Close()
+	cfg := &vh.Blob{Name: "bcfg", B: []byte(fmt.Sprintf(`{"big":%d}`, i))}
+	cfg.D = vh.DigestOf("sha256", cfg.B)
+	vh.Do(srv, vh.Req{Method: "POST", URL: "/v2/b/blobs/uploads/?digest=" + cfg.D, Body: cfg.B})
+	subj := vh.MkImage("bsubj", "sha256", vh.MTImage, cfg, vh.MTConfig, nil, "", "", map[string]string{"b": fmt.Sprint(i)})
+	if st := vh.Do(srv, vh.Req{Method: "PUT", URL: "/v2/b/manifests/subject", H: map[string]string{"Content-Type": subj.MT}, Body: subj.Raw}).Status; st != 201 {
+		return
+	}
+	type art struct {
+		m *vh.Man
+		l *vh.Blob
+	}
+	var arts []art
+	for k := 0; k < 24; k++ {
+		l := &vh.Blob{Name: fmt.Sprintf("blayer%d", k), B: []byte(fmt.Sprintf("layer %d of big referrers trial %d", k, i))}
+		l.D = vh.DigestOf("sha256", l.B)
+		vh.Do(srv, vh.Req{Method: "POST", URL: "/v2/b/blobs/uploads/?digest=" + l.D, Body: l.B})
+		a := vh.MkImage(fmt.Sprintf("bart%d", k), "sha256", vh.MTImage, cfg, vh.MTConfig, []vh.Descriptorish{{MT: vh.MTLayer, D: l.D, Size: len(l.B)}}, subj.D, "application/x.big", map[string]string{"k": fmt.Sprint(k), "b": fmt.Sprint(i)})
+		if st := vh.Do(srv, vh.Req{Method: "PUT", URL: "/v2/b/manifests/" + a.D, H: map[string]string{"Content-Type": a.MT}, Body: a.Raw}).Status; st == 201 {
+			arts = append(arts, art{a, l})
+		}
+	}
+	if len(arts) < 12 {
+		r.Count("big_referrers_not_established", 1)
+		return
+	}
+	if _, err := srv.VerifSetAllBlobTimes(context.Background(), "b", time.Now().Add(-10*time.Hour)); err != nil {
+		return
+	}
+	for k := 0; k < 2; k++ {
+		_ = srv.VerifGC(context.Background(), "b")
+	}
+	r.Count("big_referrers_trials", 1)
+	wit := map[string]any{"trial": i, "store": kind.String(), "policy": fmt.Sprintf("%+v", pol), "manifest_limit": c.API.Manifest.Limit, "artifacts": len(arts)}
+	for _, a := range arts {
+		g := vh.Do(srv, vh.Req{Method: "GET", URL: "/v2/b/manifests/" + a.m.D, H: map[string]string{"Accept": vh.AcceptAll}})
+		gl := vh.Do(srv, vh.Req{Method: "GET", URL: "/v2/b/blobs/" + a.l.D})
+		if g.Status != 200 || gl.Status != 200 {
+			r.Violation("referrer-of-retained-subject-lost", fmt.Sprintf("a collection (everything old, %s store, manifest limit %d) removed artifact %s of a tagged subject with %d artifacts: manifest %d, its layer %d", kind, c.API.Manifest.Limit, a.m.Name, len(arts), g.Status, gl.Status), wit)
+			return
+		}
+	}
+	r.Distinct("big_referrers_cells", fmt.Sprintf("%s/%d/%v%v%v", kind, c.API.Manifest.Limit, pol.Untagged, pol.Dangling, pol.WithSubj))
+}
